@@ -22,16 +22,18 @@ Qed.
 Lemma requested_untouched : forall ch d k, ~ In k (keys ch) -> requested ch d k = pget k d.
 Proof. intros ch d k H. unfold requested. rewrite (plookup_not_in k ch H). reflexivity. Qed.
 
-Theorem marking_call_is_new_version : forall T nm c d ch now d' v,
+(* cp, ck: C05's arbitrary property-cleaning / constructor-check parameters; stored cp c k x is x itself for a
+   dict and the cleaned value for an object of a class (Proofs/VersioningProofs.v) *)
+Theorem marking_call_is_new_version : forall T nm cp ck c d ch now d' v,
   good_ver v -> NoDup (keys d) -> NoDup (keys ch) ->
   (forall k, In k (keys ch) -> In k src_nv_changed_keys) ->
   check_versionable T c d = Ok v ->
-  new_version T nm c d ch now = Ok d' ->
+  new_version T nm cp ck c d ch now = Ok d' ->
   later nm v d d' /\
-  (forall k, ustr_eqb k kmod = false -> ~ In k marking_keys -> pget k d' = pget k d).
+  (forall k, ustr_eqb k kmod = false -> ~ In k marking_keys -> plookup k d' = stored cp c k (pget k d)).
 Proof.
-  intros T nm c d ch now d' v Hv Nd Nc Hk Hc Hn. split.
-  - exact (nv_strict_lemma T nm c d ch now d' v Hv Nd Nc Hc Hn).
-  - intros k Hm Hnot. rewrite (nv_exact_lemma T nm c d ch now d' Nd Nc Hn k Hm).
+  intros T nm cp ck c d ch now d' v Hv Nd Nc Hk Hc Hn. split.
+  - exact (nv_strict_lemma T nm cp ck c d ch now d' v Hv Nd Nc Hc Hn).
+  - intros k Hm Hnot. rewrite (nv_exact_lemma T nm cp ck c d ch now d' Nd Nc Hn k Hm). f_equal.
     apply requested_untouched. intro Hin. apply Hnot. apply src_changes_only_marking_keys. apply Hk. exact Hin.
 Qed.
